@@ -57,16 +57,16 @@ CHECKS = {
                 text="SshdProc.tla: all 54 environment scripts (write ok/fail x receiver ready/late/never x cancel never/before/while blocked) x interleavings satisfy at-most-once, write-before-send, error-on-failure, forwarded-unless-cancelled, progress. Each script is realised against the real processor with real lines; the recorded event sequence must be a behaviour of the spec. PID/credential/identity of the forwarded login are checked for every accepted-login vector.",
                 note="Trusted: TLC; timing assumptions of the scenario harness (40 ms to call a worker blocked, 300 ms to call it stuck)."),
     "C18": dict(level="model_checking", ref="7/C18", technique="TLA+ spec (Health.tla) checked by TLC; sequential histories, exhaustive lock-level schedules and WaitForReady scripts on the real code validated by TLC (HealthTrace.tla)",
-                text="TLC: every interleaving of status requests with registrations/ready-marks yields internally consistent, linearizable responses. All op sequences up to length 4 (6 thorough) over 3 names are replayed through the real handler; all schedules of four concurrent programs are executed on the real code; 120 WaitForReady scripts.",
+                text="TLC: every interleaving of status requests with registrations/ready-marks yields internally consistent, linearizable responses. All op sequences up to length 4 (6 thorough) over 3 names are replayed through the real handler; all schedules of four concurrent programs are executed on the real code; WaitForReady scripts.",
                 note="Trusted: TLC, the controlled scheduler; WaitForReady observed with a 2 ms poll interval and 150 ms settle times."),
     "C12": dict(level="model_checking", ref="7/C12", technique="TLA+ spec of chunked pipe reading (Framing.tla) checked by TLC incl. termination; every TLC-enumerated scenario (stream x cuts x call-back error position) realised through a real FIFO and validated by TLC (FramingTrace.tla)",
                 text="TLC: for every stream over {ordinary, binary, longer-than-buffer, delimiter} up to the bound, every partition into write calls, every read granularity and every call-back error position only whole terminated records are delivered, once, in order; delivery stops at the first error; EOF is returned. The same scenarios are written to a real FIFO (writer paced by FIONREAD so partial records are really seen) and the real Ingest's call-backs/return are compared by TLC.",
                 note="Trusted: TLC; the symbol-to-bytes concretisation and decoding in harness/cmd/framing; FIONREAD pacing. Exhaustive up to stream length 4 (quick) / 5 (thorough) plus sampled longer streams."),
     "C08": dict(level="model_checking", ref="7/C08", technique="TLA+ spec of the daemon's workers, channels and errgroup (Pipeline.tla) checked by TLC for liveness under weak fairness; every fail-stop scenario (cause x load) run against the built binary and judged by TLC (PipelineTrace.tla)",
-                text="TLC: any worker returning, or a signal, leads to all workers returned and process exit, for every interleaving with a flooding audit writer (and the pinned bare-send variant violates it). 19 scenarios (11 causes x idle / sustained audit load / pipes never opened) are run against the binary built from the working tree with real FIFOs; exit status and time to exit are validated.",
+                text="TLC: any worker returning, or a signal, leads to all workers returned and process exit, for every interleaving with a flooding audit writer (and the pinned bare-send variant violates it). Scenarios (causes x idle / sustained audit load / pipes never opened / HTTP servers) are run against the binary built from the working tree with real FIFOs; exit status and time to exit are validated.",
                 note="Trusted: TLC; the scenario driver (checks/pipeline.py); 5 s as 'bounded time'; Linux FIFO semantics."),
     "C13": dict(level="model_checking", ref="7/C13", technique="TLA+ spec (Pipeline.tla) checked by TLC: Cancel ~> Returned for every worker; every blocking situation realised on the real worker, cancelled, observation judged by TLC (PipelineTrace.tla)",
-                text="TLC proves cancellation leads to return for the three workers in every reachable state (weak fairness). 21 blocking situations (opening, idle read, partial record, blocked hand-off with capacities 0/1/4/64, full buffer, flood; select loop idle/busy/with pending login) are established on the real workers with real FIFOs; return within 2 s, error reported, nothing delivered after return.",
+                text="TLC proves cancellation leads to return for the three workers in every reachable state (weak fairness). 24 blocking situations (opening, idle read, partial record, blocked hand-off with capacities 0/1/4/64, full buffer, flood; select loop idle/busy/with pending login) are established on the real workers with real FIFOs; return within 2 s, error reported, nothing delivered after return.",
                 note="Trusted: TLC; the state-establishing logic of harness/cmd/workers (FIONREAD, channel lengths); wall-clock bounds."),
     "C20": dict(level="model_checking", ref="7/C20", technique="TLA+ spec of the directory reader (DirReader.tla: real offset/lastSz algorithm next to the ideal) checked by TLC; every scenario replayed on the real LogDirReader (in-memory fs through the verif constructor, real files for the initial order) and judged by TLC (DirReaderTrace.tla)",
                 text="TLC: for every sequence of append / partial append / complete / rotate / truncate / create up to the bound over eight initial directory contents (incl. 12 rotations and suffixes up to 999) the modelled tailing algorithm delivers exactly the ideal sequence; the two pinned variants are rejected. All scenarios are replayed on the real reader with lines shorter and longer than the read buffer; delivered lines are compared by TLC with the ideal.",
@@ -78,6 +78,31 @@ CHECKS = {
                 text="Design: TLC proves the hand-off never precedes the event write (all scripts/interleavings). Implementation: histories with up to six concurrent sessions (TLC -simulate) are turned into sshd and audit lines and written in concurrent bursts to the real FIFOs of the built binary; strace shows every event is exactly one write(2) of exactly one line; TLC checks on the file's line sequence that each UserLogin precedes every UserAction with its identity, no login line is missing or doubled, and per session the required events appear exactly once in order with the right identity.",
                 note="Trusted: TLC; Linux atomicity of one write(2) on an O_APPEND file; strace's view of the writes; the L3 projection in harness/cmd/l3. Schedules are whatever the OS produces (not controlled) over seeded input scripts."),
 }
+
+# additions to the texts above (legs added while testing the checks against seeded changes)
+MORE = {
+    "C01": " The same histories (without cleanup) also go through Auditd.Read as real audit log lines (L2) and, as two concurrent input scripts, through the built daemon (L3).",
+    "C02": " L2 (Auditd.Read, real log lines) and L3 (built daemon) legs as for C01.",
+    "C04": " L2 and L3 legs as for C01, with null sessions, unparsable PIDs and invalid logins.",
+    "C05": " CountedOnce is part of the model. Through the whole worker (FIFO, ingesters, processor) a login blocked in the hand-off for 6.5 s while the correlator is busy must still be delivered; on one long-lived processor a login handed over earlier keeps its event (StreamLoginStable).",
+    "C06": " Every line is also delivered to ONE long-lived processor (StreamExact); every second concretisation keeps half of the previous values; a third of the lines is delivered twice in a row.",
+    "C07": " Also through a real FIFO and the whole ingester chain; audit record lines with and without their newline.",
+    "C08": " 30 scenarios now: also partial EOF, unknown record type, the output breaking with events in flight (complete head event / staggered 2 s time-outs), and --healthz --metrics --audit-metrics with a busy port; the model has the HTTP and audit-metrics workers.",
+    "C09": " Histories include the login of the reused PID overtaking the end of the earlier session (the two pipes are independent); L2 leg through Auditd.Read.",
+    "C10": " Four daemons run side by side; every other run appends to a file that already holds the lines of an earlier run, which must stay intact; bursts of failed logins in the sshd script.",
+    "C11": " Also head-in-front duplications; every line also on one long-lived processor (StreamUniversal).",
+    "C12": " A sample of the scenarios is run again with 150 ms (thorough: also 1.1 s) of silence after every write call; now and then a record is longer than 64 KiB.",
+    "C13": " Every blocking situation is cancelled at once and after a 2.6 s stall.",
+    "C14": " L2 leg against aucoalesce's own view of the same records.",
+    "C15": " Delivery modes: stepwise, as a backlog in a buffered channel, and with the failure reported while Read is busy in RemoteLogin; malformed-line classes; persistent output failures; a sample of three-event scenarios.",
+    "C16": " Staleness.tla models the ticker phase against arrival times; the thorough tier runs Auditd.Read in real time (its own one-minute ticker, filler logins) and validates the runs with StalenessTrace.tla.",
+    "C17": " Names imitating whole other messages, grammar-fragment walks, [preauth] suffixes and phrases of unhandled sshd messages; also on one long-lived processor.",
+    "C18": " A probe request after the last thread of every program (an answer computed during the concurrent part must not outlive it); 210 WaitForReady scripts incl. registrations after the wait started and re-registration after 'seen ready'.",
+    "C19": " Counters are read from a fresh registry per line AND from one long-lived registry for the whole run (StreamCounter, repeats, twins); the 54 worker scripts of SshdProc log the counter (CountedOnce: an emitted event is counted exactly once whether the hand-off completed or was abandoned).",
+    "C20": " Long lines are 10 000 bytes (their unterminated first half alone exceeds the read buffer).",
+}
+for _p, _t in MORE.items():
+    CHECKS[_p]["text"] += _t
 
 ALL = ["C%02d" % i for i in range(1, 21)]
 
